@@ -14,13 +14,22 @@ scope: { "<file>": { "fn": [regex on the function name, fullmatch],
                      "skip_header": [regex searched in the enclosing impl / trait / macro header],
                      "only_header": [regex; when present the header must match one of them] } }
 
-For every function the committed inventory names (file, enclosing impl/trait/macro header,
-function name, n-th definition of that name under that header) this lists the
-constructs that can panic when the harness builds routecore (overflow checks ON):
+For every function of the scope (file, enclosing impl/trait/macro header, function name, n-th definition of that
+name under that header) this lists the constructs that can panic when the harness builds routecore (overflow
+checks ON).  The body is cut into STATEMENTS (at `;` / `,` directly inside a block and at every brace), not into
+physical lines: an expression that rustfmt wrapped (`x = y\n    - (2 + z);`, `len -\n 19`) has both operands
+of its operator, so `checked_sub(..)` -> `-` is a new `arith` construct whatever the layout.
 
-  unwrap   `.unwrap()`                      expect  `.expect(`
-  index    `x[..]` index / slice expressions macro   panic! todo! unreachable! unimplemented! assert*!
-  arith    binary + - * << and the op= forms cast    `as u8|u16|u32|usize|i..` conversions
+  unwrap   `.unwrap()`, `Option::unwrap(x)`   expect  `.expect(`, `Result::expect(x, ..)`
+  index    `x[..]` index / slice expressions  macro   panic! todo! unreachable! unimplemented! assert*! debug_assert*!
+  arith    binary + - * << and the op= forms; / % with anything but a non-zero literal on the right; >> with anything
+           but a literal on the right (literal OP literal is evaluated by rustc and is not a site)
+  cast     `as u8|u16|u32|usize|i..` conversions
+  call     methods of std / bytes / octseq that panic on a length or position that does not fit: Buf::get_u8 /
+           get_u16 / get_u32 / .., advance, split_at / split_to / split_off, dst.copy_from_slice(src), remove /
+           swap_remove / drain, Octets::range, unwrap_err, get_unchecked - unless the result is handed to `?` /
+           `.unwrap()` / `.expect(` / `.map_err(` / `let _ =` (then the call returns a Result, e.g. octseq's
+           `parser.advance(n)?`, and the unwrap behind it is its own site)
 
 and compares them - as normalised source text, per function - with the inventory, in
 which every function is mapped to the model operation that mirrors it (`model`) and
@@ -28,21 +37,43 @@ to what discharges its sites (`guard`: a `.panic` branch of the model + the lemm
 that shows it unreachable, or the reason the site cannot fire).  A site that
 APPEARS (or changes its text) in a function of the scope, and a new function of
 the scope that has sites, breaks the tie: exit 1.  Sites and functions that
-disappear are printed as notes only (a refactoring into helpers or a repair adds
-nothing that could panic where the model does not look).  Lines that differ are then
-compared by their CONSTRUCTS (`constructs`: the indexed expression with its index, the
-receiver of an unwrap / expect, both operands of an arithmetic operator, the operand of
-a cast): a line that was re-wrapped or whose expression was put into another statement
+disappear are printed as notes only (a repair adds nothing that could panic where the model does not
+look).  Statements that differ are then compared by their CONSTRUCTS (`constructs`: the indexed expression
+with its index, the receiver of an unwrap / expect, both operands of an arithmetic operator, the operand of
+a cast, a call with its receiver and arguments): a statement whose expression was put into another statement
 (`match x[18] {` -> `T::from(x[18])`, `let _ = f(&mut b[18..(len)])` -> `if let Err(e) =
 f(&mut b[18..len])`) holds the same constructs and is a note, and so are constructs that
 disappear from one function of a file and appear unchanged in another function of the
 same file (code moved into a helper or a renamed function).  A construct with another
-receiver, index, operand or literal is a new site.  `--write` rewrites the `sites`
-lists from the source and keeps the hand-written `model` / `guard` texts; a new
-function with sites gets `model: "TODO"`, which the comparison refuses.
+receiver, index, operand or literal is a new site.
 
-Heuristic by design (it reads text, not types): an overflow hidden behind a method
-call of another crate is not seen; the malformed-input stream of C02 is the backstop.
+Renames: a construct that differs from a lost one in up to three lower-case identifiers is accepted as a renamed
+field / local ONLY when the new name did not occur anywhere in the inventoried function body (`ids`, recorded by
+--write) and the old name no longer occurs anywhere in the new body.  Substituting ANOTHER EXISTING variable
+(`&buf[..len]` -> `&hdr[..len]`, `len as usize` -> `typ as usize`), a derived one (`n = len | 0x1000`) or any
+constant / type name (`[COFF]` -> `[LENOFF]`: the text does not show its value) is a new site.
+
+Callees: a call that is new in a function of the scope (its name is not among the recorded `ids`) is resolved
+textually (`self.f(` / `x.f(`: the impl blocks of the same file; `f(` / `module::f(`: free functions of every file
+under src/; `Type::f(`: impl blocks that mention Type); when such a definition has constructs, it must be in the
+scope of THIS inventory or of one next to it (tools/panic_sites_*.json) or consist of constructs the file lost
+(moved code) - otherwise exit 1.  So an index moved into a helper outside every scope is not just "gone".  The
+scopes of C03 / C09 / C15 take every function of the listed files / impl blocks, so a new helper there is read.
+
+`--write` rewrites the `sites` / `ids` lists from the source and keeps the hand-written `model` / `guard` texts;
+a new function with sites gets `model: "TODO"`, which the comparison refuses.
+
+NOT covered, by design (it reads text, not types or control flow):
+  * GUARDS are not constructs.  Removing, weakening, neutralising or moving a length test (`if len <= 6` deleted,
+    `> 21` -> `> 2`, a `parser.advance(2)?` deleted, a test moved behind the slice it protects) changes no construct
+    and is silent here; the `guard` text of the inventory is documentation and is not checked to still hold.
+    What stands behind it is the differential run (the model keeps the guard, the code does not: the first input
+    in the gap differs) and, for the three guards of parse_frame / read_message only, tools/gen_codepoints.py
+    --constants (literal, `return Err` in the block, position before the protected operation).
+  * an overflow or an out-of-range index hidden behind a method call of another crate that is not in the `call`
+    list, trait dispatch the text cannot resolve (`x.f(` on a receiver of a type defined in another file), macros
+    that expand to panicking code, `unsafe`.
+The malformed-input stream of each property is the backstop.
 """
 import json
 import re
@@ -155,12 +186,19 @@ def functions(src):
 
 
 SITE = [
-    ("unwrap", re.compile(r"\.unwrap\(\)")),
-    ("expect", re.compile(r"\.expect\(")),
-    ("macro", re.compile(r"\b(panic|todo|unreachable|unimplemented|assert|assert_eq|assert_ne)!")),
+    ("unwrap", re.compile(r"\.unwrap\(\)|\b(?:Option|Result)::unwrap\(")),
+    ("expect", re.compile(r"\.expect\(|\b(?:Option|Result)::expect\(")),
+    ("macro", re.compile(r"\b(panic|todo|unreachable|unimplemented|assert|assert_eq|assert_ne|debug_assert|debug_assert_eq|debug_assert_ne)!")),
     ("index", re.compile(r"(?<=[\w\)\]\?])\[")),
-    ("arith", re.compile(r"(?<=[\w\)\]])\s*(\+=|-=|\*=|<<=|<<|\+|\*|(?<!-)-(?!>))\s*(?=[\w\(&])")),
+    ("arith", re.compile(r"(?<=[\w\)\]])\s*(\+=|-=|\*=|<<=|>>=|/=|%=|<<|>>|\+|\*|/|%|(?<!-)-(?!>))\s*(?=[\w\(&\*\-!])")),
     ("cast", re.compile(r"\bas\s+(u8|u16|u32|u64|usize|i8|i16|i32|i64|isize)\b")),
+    # methods of std / bytes / octseq that panic on a length or position that does not fit (bytes::Buf::get_uN and
+    # advance, split_at / split_to / split_off, dst.copy_from_slice(src), Vec::remove / swap_remove / insert-free
+    # drain, Octets::range, unwrap_err, get_unchecked); a call whose result is handed to `?` (octseq's
+    # `parser.advance(n)?`) returns a Result and is not one; `Bytes::copy_from_slice(..)` (a constructor) is not one
+    ("call", re.compile(r"\.(get_u8|get_u16|get_u32|get_u64|get_u128|get_i8|get_i16|get_i32|get_i64|get_uint|get_int|advance|"
+                        r"split_at|split_at_mut|split_to|split_off|copy_from_slice|clone_from_slice|remove|swap_remove|"
+                        r"drain|range|truncate_front|unwrap_err|expect_err|unwrap_unchecked|get_unchecked|get_unchecked_mut)\(")),
 ]
 
 
@@ -169,22 +207,98 @@ SITE = [
 NOT_ARITH = re.compile(r"([<:&]|\b(match|return|if|in|while|else|let|mut|ref|break|move))\s*$")
 
 
+_LIT = re.compile(r"\(?\s*(0x[0-9a-fA-F_]+|0b[01_]+|[0-9][0-9_]*)(u8|u16|u32|u64|u128|usize|i8|i16|i32|i64|isize)?\s*\)?")
+
+
+_RESULT = re.compile(r"\s*(\?|\.\s*(unwrap|expect|map_err|ok|is_ok|is_err|unwrap_or|unwrap_or_else|unwrap_or_default|and_then|or_else|ok_or|ok_or_else)\b)")
+
+
+def _close(t, i):
+    """t[i] is an opening bracket -> index of its partner, or len(t)"""
+    d = 0
+    for k in range(i, len(t)):
+        if t[k] in "([{":
+            d += 1
+        elif t[k] in ")]}":
+            d -= 1
+            if d == 0:
+                return k
+    return len(t)
+
+
+def _is_site(kind, t, m):
+    """does the match m of the `kind` pattern in the statement t stand for something that can panic"""
+    if kind == "arith":
+        # generic parameters / lifetimes / references / ranges are not arithmetic
+        if NOT_ARITH.search(t[:m.start() + 1]):
+            return False
+        op = m.group(1)
+        if _LIT.fullmatch(t[_back(t, m.start()):m.start()] or "x") and _LIT.fullmatch(t[m.end():_fwd(t, m.end())] or "x"):
+            return False               # `16 + 2`, `1 << 14`: evaluated by rustc, an overflow is a compile error
+        if op in ("+", "*") and t[m.start() - 1] == ")":
+            # `$( .. )+` / `$( .. )*`: a repetition of macro_rules!, not a sum
+            d = 0
+            for k in range(m.start() - 1, -1, -1):
+                d += (t[k] == ")") - (t[k] == "(")
+                if d == 0:
+                    if k and t[k - 1] == "$":
+                        return False
+                    break
+        if op in (">>", ">>="):
+            # `collect::<Vec<_>>()`, `Header::<Vec<u8>>(buf)`: the close of two generic argument lists
+            before = re.sub(r"<<|<=|->|=>|>=|>>", "  ", t[:m.start()])
+            if before.count("<") > before.count(">"):
+                return False
+        if op in ("/", "%", "/=", "%=", ">>", ">>="):
+            # a division panics on a zero divisor, a shift on an amount >= the width: with a literal on the right
+            # (`(bits + 7) / 8`, `x >> 8`) neither can happen (rustc rejects an over-wide literal shift)
+            lit = _LIT.fullmatch(t[m.end():_fwd(t, m.end())])
+            if lit and (op.startswith(">>") or int(lit.group(1).replace("_", ""), 0) != 0):
+                return False
+    if kind == "call":
+        e = _close(t, m.end() - 1)
+        if _RESULT.match(t[e + 1:]) or (re.match(r"let _ = $", t[:_back(t, m.start())]) and t[e + 1:].strip() in (";", "")):
+            return False               # returns a Result (octseq `parser.advance(n)?`, `.advance(n).unwrap()`): an error,
+                                       # not a panic of the call itself (the unwrap / expect behind it is its own site)
+    return True
+
+
+def statements(body):
+    """the body cut into statements: at `;` and `,` directly inside a block and at every brace.  An expression that
+    rustfmt wrapped over several physical lines (`x = y\n    - (2 + z);`, `len -\n 19`) is ONE statement, so an
+    operator at a line break has both its operands."""
+    out, cur, stack = [], [], []
+    for ch in body:
+        cur.append(ch)
+        if ch in "([{":
+            stack.append(ch)
+        elif ch in ")]}" and stack:
+            stack.pop()
+        top = stack[-1] if stack else "{"
+        if ch in "{}" or (ch in ";," and top == "{"):
+            out.append("".join(cur))
+            cur = []
+    out.append("".join(cur))
+    return out
+
+
 def sites(body):
     out = []
-    for line in body.splitlines():
-        t = " ".join(line.split())
-        if not t or t.startswith("#["):
+    for st in statements(body):
+        t = " ".join(st.split())
+        t = re.sub(r"^(#!?\[[^\]]*\]\s*)+", "", t)
+        if not t:
             continue
         for kind, rx in SITE:
-            k = len(rx.findall(t)) if kind != "arith" else len(list(rx.finditer(t)))
-            if kind == "arith":
-                # generic parameters / lifetimes / references / ranges are not arithmetic
-                k = len([m for m in rx.finditer(t) if not NOT_ARITH.search(t[:m.start() + 1])])
+            k = len([m for m in rx.finditer(t) if _is_site(kind, t, m)])
             if k:
                 # which member of the panic family a line uses is not a difference
                 t2 = re.sub(r"\b(panic|todo|unreachable|unimplemented)!", "panic!", t) if kind == "macro" else t
-                out.append("%s x%d: %s" % (kind, k, t2[:110]))
+                out.append("%s x%d: %s" % (kind, k, t2[:CUT]))
     return out
+
+
+CUT = 400     # statements are stored up to this length; a longer one is compared as a whole (see constructs)
 
 
 # ---- constructs: what a site line holds, independent of the line it is written on ----------------------------
@@ -253,7 +367,7 @@ def _fwd(t, i):
 
 
 def constructs(site):
-    """the constructs of one inventory line `kind xK: text` (text is cut at 110 characters: a line whose
+    """the constructs of one inventory line `kind xK: text` (text is cut at CUT characters: a statement whose
     constructs cannot all be recovered yields itself, which matches nothing but the identical line)"""
     m = re.match(r"(\w+) x(\d+): (.*)$", site)
     if not m:
@@ -262,7 +376,7 @@ def constructs(site):
     rx = dict(SITE)[kind]
     out = []
     for mm in rx.finditer(t):
-        if kind == "arith" and NOT_ARITH.search(t[:mm.start() + 1]):
+        if not _is_site(kind, t, mm):
             continue
         if kind == "index":
             a = _back(t, mm.start())
@@ -278,36 +392,59 @@ def constructs(site):
             if e >= len(t):
                 return [site]
             c = t[a:e + 1]
+        elif kind in ("unwrap", "expect") and not mm.group(0).startswith("."):
+            e = _close(t, mm.end() - 1)          # `Option::unwrap(x)`: the function-call spelling, with its argument
+            if e >= len(t):
+                return [site]
+            c = t[mm.start():e + 1]
         elif kind in ("unwrap", "expect"):
             c = t[_back(t, mm.start()):mm.start()] + "." + kind
+        elif kind == "call":
+            e = _close(t, mm.end() - 1)
+            if e >= len(t):
+                return [site]
+            c = t[_back(t, mm.start()):e + 1]
         elif kind == "macro":
             c = mm.group(1) + "!"
         elif kind == "arith":
             b = _fwd(t, mm.end())
-            if b >= len(t) and len(t) >= 110:
+            if b >= len(t) and len(t) >= CUT:
                 return [site]
             c = t[_back(t, mm.start()):mm.start()] + mm.group(1) + t[mm.end():b]
         else:  # cast
             c = t[_back(t, mm.start() - 1 if mm.start() and t[mm.start() - 1] == " " else mm.start()):mm.end()]
         # redundant parentheses around a lone name or number (`buf[18..(len)]`) are not a difference
         c = re.sub(r"(?<![\w\)\]>!])\(\s*(\w+)\s*\)", r"\1", c)
-        c = "".join(c.split())
+        c = "".join(c.split()).replace(".ok()?", "?")     # `x.ok()?` in an Option-returning fn = `x?` in a Result-returning one
         out.append(kind + ": " + c)
     if len(out) != k:
         return [site]
     return out
 
 
-def _renamed(came_c, have_c):
+def _idents(text):
+    return set(re.findall(r"[A-Za-z_]\w*", text))
+
+
+def _renamed(came_c, have_c, old_ids=None, new_ids_body=None):
     """came_c with up to three identifiers renamed back, when that makes every construct one the function lost:
     a private field or a local that was given another name (`self.octets[..]` -> `self.slice[..]`) in ALL the
-    constructs that use it.  Returns the renamed list, or None."""
+    constructs that use it.  A rename is a NEW name for an old thing: the new name must not have occurred anywhere
+    in the function before (`old_ids` = the identifiers of the inventoried body, recorded by --write as `ids`) and
+    the old name must be gone from the whole new body (`new_ids_body`) - `&buf[..len]` -> `&hdr[..len]` with an
+    existing `hdr`, `buf[18..len]` -> `buf[18..n]` with `n = len | 0x1000` are substitutions, not renames.  A name
+    in capitals (a constant, a type) is never a rename: its VALUE is what matters and the text does not show it
+    (`[COFF]` -> `[LENOFF]`).  Without recorded identifiers nothing is accepted.  Returns the renamed list, or None."""
     import itertools
-    ids = lambda cs: set(w for c in cs for w in re.findall(r"[A-Za-z_]\w*", c.split(": ", 1)[-1]))
-    new_ids, old_ids = sorted(ids(came_c) - ids(have_c)), sorted(ids(have_c) - ids(came_c))
-    if not new_ids or len(new_ids) != len(old_ids) or len(new_ids) > 3:
+    if old_ids is None or new_ids_body is None:
         return None
-    for perm in itertools.permutations(old_ids):
+    ids = lambda cs: set(w for c in cs for w in re.findall(r"[A-Za-z_]\w*", c.split(": ", 1)[-1]))
+    new_ids, old_names = sorted(ids(came_c) - ids(have_c)), sorted(ids(have_c) - ids(came_c))
+    if not new_ids or len(new_ids) != len(old_names) or len(new_ids) > 3:
+        return None
+    if any(w in old_ids or w.upper() == w for w in new_ids) or any(w in new_ids_body or w.upper() == w for w in old_names):
+        return None
+    for perm in itertools.permutations(old_names):
         ren = dict(zip(new_ids, perm))
         back = [c.split(": ", 1)[0] + ": " + re.sub(r"[A-Za-z_]\w*", lambda m: ren.get(m.group(0), m.group(0)), c.split(": ", 1)[-1])
                 for c in came_c]
@@ -326,6 +463,10 @@ def _same(x, y):
     line on one side (`.try_into().expect`) and is written on one line on the other (`c.value().try_into().expect`)"""
     if x == y:
         return True
+    ue = re.compile(r"(unwrap|expect): (.*)\.(unwrap|expect)$")
+    mx, my = ue.match(x), ue.match(y)
+    if mx and my and mx.group(2) == my.group(2) and not mx.group(2).startswith("."):
+        return True                # `.unwrap()` <-> `.expect("..")` on the same receiver: the same site with a message
     for kind in ("unwrap: ", "expect: "):
         if x.startswith(kind) and y.startswith(kind):
             a, b = x[len(kind):], y[len(kind):]
@@ -348,6 +489,72 @@ def _minus(a, b, same=lambda x, y: x == y):
     return rest, b
 
 
+_KEYWORDS = set("if match while for return loop in as let fn move else unsafe where impl dyn ref mut Some Ok Err None".split())
+
+
+def _calls(body):
+    """{name: set of qualifiers} of what is called in the body: `name(` -> "", `self.name(` / `Self::name(` -> "self",
+    `x.name(` -> ".", `Q::name(` -> "Q" (macros `name!(` are not calls)"""
+    out = {}
+    for m in re.finditer(r"(\bself\s*\.\s*|\bSelf\s*::\s*|\b(\w+)\s*::\s*|\.\s*)?\b([a-z_]\w*)\s*(?:::\s*<[^;{}()]*>\s*)?\(", body):
+        q, name = m.group(1) or "", m.group(3)
+        if name in _KEYWORDS:
+            continue
+        q = "self" if q.lstrip().startswith(("self", "Self")) else (m.group(2) or (". " if q else "")).strip() or ("." if q else "")
+        out.setdefault(name, set()).add(q)
+    return out
+
+
+def _resolve(repo, f, name, quals):
+    """the definitions a call of `name` written with these qualifiers in file f can mean (text, not types: a method
+    on another receiver is looked up in the same file only, a free function and `module::name` everywhere, `Type::name`
+    in the impl blocks that mention Type)"""
+    out = []
+    for df, dh, dl, ds in _definitions(repo, name):
+        for q in quals:
+            if (q in ("self", ".") and df == f and dh) or (q == "" and not dh) or \
+               (q not in ("self", ".", "") and ((q[0].islower() and not dh) or (q[0].isupper() and re.search(r"\b%s\b" % re.escape(q), dh)))):
+                out.append((df, dh, dl, ds))
+                break
+    return out
+
+
+_DEFS = {}
+
+
+def _definitions(repo, name):
+    """[(file, header, line, sites)] of every fn `name` with a body under <repo>/src, outside `mod tests`"""
+    import os
+    if not _DEFS:
+        for d, _, fs in os.walk(os.path.join(repo, "src")):
+            for f in sorted(fs):
+                if f.endswith(".rs"):
+                    path = os.path.join(d, f)
+                    for header, n, nth, body, line in functions(open(path).read()):
+                        _DEFS.setdefault(n, []).append((os.path.relpath(path, repo), header, line, sites(body)))
+        _DEFS.setdefault("", [])
+    return _DEFS.get(name, [])
+
+
+def _in_scope(rxs, header, name):
+    return any(re.fullmatch(rx, name) for rx in rxs["fn"]) and not any(re.search(x, header) for x in rxs.get("skip_header", [])) \
+        and ("only_header" not in rxs or any(re.search(x, header) for x in rxs["only_header"]))
+
+
+def _read_by_some_inventory(expected, f, header, name):
+    """is fn `name` under `header` of file f in the scope of this inventory or of one next to it (tools/panic_sites_*.json)"""
+    import glob
+    import os
+    for p in sorted(set(glob.glob(os.path.join(os.path.dirname(os.path.abspath(expected)), "panic_sites_*.json")) + [os.path.abspath(expected)])):
+        try:
+            scope = json.load(open(p)).get("scope", {})
+        except ValueError:
+            continue
+        if f in scope and _in_scope(scope[f], header, name):
+            return True
+    return False
+
+
 def main():
     repo, expected = sys.argv[1], sys.argv[2]
     if repo == "@check":
@@ -357,14 +564,14 @@ def main():
         repo = re.search(r'^REPO = "([^"]+)"', open(os.path.join(here, "check")).read(), re.M).group(1)
     write = "--write" in sys.argv
     inv = json.load(open(expected))
-    found = {}
+    found, bodies = {}, {}
     for f, rxs in inv["scope"].items():
         src = open(repo + "/" + f).read()
         for header, name, nth, body, line in functions(src):
-            if any(re.fullmatch(rx, name) for rx in rxs["fn"]) and not any(re.search(x, header) for x in rxs.get("skip_header", [])) \
-                    and ("only_header" not in rxs or any(re.search(x, header) for x in rxs["only_header"])):
+            if _in_scope(rxs, header, name):
                 key = "%s | %s | %s#%d" % (f, header, name, nth)
                 found[key] = (sites(body), line)
+                bodies[key] = body
     if "--list" in sys.argv:
         for k, (s, line) in found.items():
             print("%s (line %d): %d sites" % (k, line, len(s)))
@@ -376,7 +583,7 @@ def main():
         new = {}
         for k, (s, _) in found.items():
             e = old.get(k) or ({"model": "TODO", "guard": "TODO"} if s else {"model": "-", "guard": "no panic-capable construct in the body"})
-            new[k] = {"model": e["model"], "guard": e["guard"], "sites": s}
+            new[k] = {"model": e["model"], "guard": e["guard"], "sites": s, "ids": " ".join(sorted(_idents(bodies[k])))}
         inv["functions"] = new
         json.dump(inv, open(expected, "w"), indent=1, ensure_ascii=False)
         open(expected, "a").write("\n")
@@ -402,9 +609,23 @@ def main():
         # the same constructs on re-written lines (re-wrapped, put into another statement) are no new sites
         came_c, have_c = _minus([c for x in came for c in constructs(x)], [c for x in have for c in constructs(x)], _same)
         came_c = [c for c in came_c if not _harmless(c)]
-        if came_c and _renamed(came_c, have_c) is not None:
+        old_ids = set(old[k]["ids"].split()) if "ids" in old[k] else None
+        ren = _renamed(came_c, have_c, old_ids, _idents(bodies[k])) if came_c else None
+        if ren is not None:
             notes.append("site line(s) of %s re-written with a renamed field / local, same panic-capable constructs: %s" % (k, came))
-            came_c, have_c, came = [], _minus(_renamed(came_c, have_c), have_c, _same)[1], []
+            came_c, have_c, came = [], _minus(ren, have_c, _same)[1], []
+        # a call that is new in this function: what it calls must be read by some inventory when it has sites of its own
+        # (an index or a subtraction moved into a helper outside every scope would otherwise just be "gone")
+        if old_ids is not None:
+            calls = _calls(bodies[k])
+            for callee in sorted(set(calls) - old_ids):
+                for df, dh, dl, ds in _resolve(repo, k.split(" | ")[0], callee, calls[callee]):
+                    cs = [c for x in ds for c in constructs(x) if not _harmless(c)]
+                    if cs and not _read_by_some_inventory(expected, df, dh, callee):
+                        # like a new function of the scope: fine when its constructs are the ones this file lost (moved code)
+                        cand.append(("%s | %s | %s" % (df, dh, callee), dl, ds, cs,
+                                     "%s (line %d) now calls `%s` (%s | %s, line %d), which has panic-capable sites and is read by no inventory: %s" % (
+                                         k, line, callee, df, dh, dl, ds)))
         if have_c:
             pool.setdefault(k.split(" | ")[0], []).extend(have_c)
         if came_c:
